@@ -262,7 +262,7 @@ macro_rules! refresh_chain_contract {
                     let mut j = 0;
                     while j < 4 {
                         let want = if j < expect.len() { Some(classic(t[expect[j]])) } else { None };
-                        assert!(c[j] == want, "C04/C05: refreshed chain = master secrets newer than the user's newest ++ user secrets still in the master key (a sub-sequence of the master chain starting at its front)");
+                        assert!(c[j] == want, "C04/C05/C06: refreshed chain = master secrets newer than the user's newest ++ user secrets still in the master key (a sub-sequence of the master chain starting at its front), whatever their activation flags");
                         j += 1;
                     }
                 }
@@ -272,19 +272,19 @@ macro_rules! refresh_chain_contract {
         }
     };
 }
-// @obl props=C04,C05 tier=quick class=bounded fn=core::primitives::refresh_coordinate_keys shape="master [t3,t2,t1], user [t2,t1]"
+// @obl props=C04,C05,C06 tier=quick class=bounded fn=core::primitives::refresh_coordinate_keys shape="master [t3,t2,t1], user [t2,t1]"
 refresh_chain_contract!(refresh_chain__behind_by_one, master = [3, 2, 1], user = [2, 1], expect = [3, 2, 1]);
-// @obl props=C04,C05 tier=quick class=bounded fn=core::primitives::refresh_coordinate_keys shape="master [t3,t2] (t1 pruned), user [t2,t1]"
+// @obl props=C04,C05,C06 tier=quick class=bounded fn=core::primitives::refresh_coordinate_keys shape="master [t3,t2] (t1 pruned), user [t2,t1]"
 refresh_chain_contract!(refresh_chain__oldest_pruned, master = [3, 2], user = [2, 1], expect = [3, 2]);
-// @obl props=C04,C05 tier=quick class=bounded fn=core::primitives::refresh_coordinate_keys shape="master [t4,t3] (all user secrets pruned), user [t2,t1]"
+// @obl props=C04,C05,C06 tier=quick class=bounded fn=core::primitives::refresh_coordinate_keys shape="master [t4,t3] (all user secrets pruned), user [t2,t1]"
 refresh_chain_contract!(refresh_chain__all_pruned, master = [4, 3], user = [2, 1], expect = [4, 3]);
-// @obl props=C04,C05 tier=quick class=bounded fn=core::primitives::refresh_coordinate_keys shape="master [t3,t2,t1], user [t2] (issued after t1)"
+// @obl props=C04,C05,C06 tier=quick class=bounded fn=core::primitives::refresh_coordinate_keys shape="master [t3,t2,t1], user [t2] (issued after t1)"
 refresh_chain_contract!(refresh_chain__no_older_gain, master = [3, 2, 1], user = [2], expect = [3, 2]);
 // @obl props=C04,C05 tier=thorough class=bounded fn=core::primitives::refresh_coordinate_keys shape="master [t2,t1], user [t2,t1] (up to date)"
 refresh_chain_contract!(refresh_chain__up_to_date, master = [2, 1], user = [2, 1], expect = [2, 1]);
 // @obl props=C04,C05 tier=thorough class=bounded fn=core::primitives::refresh_coordinate_keys shape="master [t4], user [t3,t2,t1] (pruned after rekey)"
 refresh_chain_contract!(refresh_chain__pruned_to_front, master = [4], user = [3, 2, 1], expect = [4]);
-// @obl props=C04,C05 tier=quick class=bounded fn=core::primitives::refresh_coordinate_keys shape="master [t2] (pruned after the user's last refresh), user [t2,t1]"
+// @obl props=C04,C05,C06 tier=quick class=bounded fn=core::primitives::refresh_coordinate_keys shape="master [t2] (pruned after the user's last refresh), user [t2,t1]"
 refresh_chain_contract!(refresh_chain__pruned_behind_shared_front, master = [2], user = [2, 1], expect = [2]);
 // @obl props=C04,C05 tier=thorough class=bounded fn=core::primitives::refresh_coordinate_keys shape="master [t3,t2] , user [t3,t2,t1]"
 refresh_chain_contract!(refresh_chain__tail_pruned_shared_front, master = [3, 2], user = [3, 2, 1], expect = [3, 2]);
